@@ -293,3 +293,56 @@ def gen_case(rng, name):
 def gen_cases(seed, n, prefix="b"):
     rng = random.Random(seed)
     return [gen_case(rng, "%s%05d" % (prefix, i)) for i in range(n)]
+
+
+def gen_bankrupt_case(rng, name):
+    """leveraged / short portfolios with a price shock that may or may not drive value through zero"""
+    n = rng.randint(6, 14)
+    dates = gen_dates(rng, n)
+    nt = rng.randint(2, 4)
+    tickers = list(range(1, nt + 1))
+    shock_row = rng.randint(2, n - 2)
+    prices = []
+    for t in tickers:
+        p = dy(rng, 20, 80, 8)
+        col = []
+        for r in range(n):
+            if r == shock_row and rng.random() < 0.7:
+                p = p * rng.choice([0.125, 0.25, 4.0, 8.0, 2.0, 0.5])
+            else:
+                p = max(0.5, p + dy(rng, -2, 2, 8))
+            col.append(hx(p))
+        prices.append([t, col])
+    lev = rng.choice([0.5, 1.0, 2.0, 3.0])
+
+    def wts(sub):
+        out = []
+        for t in sub:
+            out.append([t, hx(rng.choice([-1.0, -0.5, 0.5, 1.0, 1.5]) * lev / len(sub))])
+        return out
+    sched = rng.choice([["runonce"], ["runperiod", "daily", True, False, True], ["runperiod", "weekly", True, False, False]])
+    nested = rng.random() < 0.4
+    if not nested:
+        sub = rng.sample(tickers, rng.randint(1, nt))
+        tree = ["strat", 20, False, [["sec", t, "sec", False, hx(1.0), "str"] for t in sub],
+                [sched, ["weighspecified", wts(sub)], ["rebalance"]]]
+    else:
+        kids = []
+        for j in range(rng.randint(1, 2)):
+            sub = rng.sample(tickers, rng.randint(1, nt))
+            kids.append(["strat", 10 + j, False, [["sec", t, "sec", False, hx(1.0), "str"] for t in sub],
+                         [["runperiod", "daily", True, False, False], ["weighspecified", wts(sub)], ["rebalance"]]])
+        extra = rng.sample(tickers, 1)
+        kids.append(["sec", extra[0], "sec", False, hx(1.0), "str"])
+        pw = [[k[1], hx(rng.choice([0.25, 0.5, 1.0, -0.5]))] for k in kids]
+        tree = ["strat", 20, False, kids, [sched, ["weighspecified", pw], ["rebalance"]]]
+    comm = rng.choice([["none"], ["none"], ["prop", hx(0.001953125)], ["flat", hx(1.0)]])
+    bidoffer = [[t, [hx(dy(rng, 0, 1, 8)) for _ in range(n)]] for t in tickers] if rng.random() < 0.3 else None
+    return {"name": name, "dates": dates, "intpos": rng.random() < 0.4, "comm": comm, "prices": prices,
+            "bidoffer": bidoffer, "coupons": None, "cost_long": None, "cost_short": None, "adata": [],
+            "capital": hx(float(rng.choice([10000, 100000]))), "tree": tree, "pyseed": 0}
+
+
+def gen_bankrupt_cases(seed, n, prefix="k"):
+    rng = random.Random(seed * 17 + 3)
+    return [gen_bankrupt_case(rng, "%s%05d" % (prefix, i)) for i in range(n)]
